@@ -66,6 +66,8 @@ template<typename T> struct VarOptFam {
     (void)ss.estimate;
     (void)o.get_serialized_size_bytes(IK::serde(nullptr));
   }
+  static const bool SINGLE_INSTANCE = true;
+  static Arena* arena_of(const Obj& o) { return o.allocator_.arena; }   // private member: -fno-access-control
   static const bool HAS_MERGE_REF = false, HAS_MERGE_MOVE = false, HAS_RESET = true, HAS_ROUNDTRIP = true;
   static void merge_ref(Obj&, const Obj&, const Cfg&) {}
   static void merge_move(Obj&, Obj&&, const Cfg&) {}
@@ -101,9 +103,9 @@ template<typename T> struct VarOptUnionFam {
     Sk s(r.coin() ? c.k1 : c.k2, static_cast<resize_factor>(r.below(4)), A(scratch));
     const int rounds = static_cast<int>(r.below(3));
     for (int i = 0; i < rounds; ++i) feed<T>(s, c, r, scratch);
-    if (r.coin()) { o.update(s); xcount(std::string(name()) + ".merge_ref"); }
+    if (r.coin()) { { OperandWatch w(scratch, false, "union-update"); o.update(s); } xcount(std::string(name()) + ".merge_ref"); }
     else {
-      o.update(std::move(s)); xcount(std::string(name()) + ".merge_move");
+      { OperandWatch w(scratch, true, "union-update"); o.update(std::move(s)); } xcount(std::string(name()) + ".merge_move");
       if (r.coin()) {   // the consumed sketch must remain assignable and usable
         Sk live(r.coin() ? c.k1 : c.k2, static_cast<resize_factor>(r.below(4)), A(scratch));
         feed<T>(live, c, r, scratch);
@@ -116,6 +118,7 @@ template<typename T> struct VarOptUnionFam {
   // get_result() may draw random numbers while resolving the gadget, so the deterministic read-out is the image
   static std::string readout(const Obj& o, const Cfg&) { return "bytes=" + bytes_hex(o.serialize(0, IK::serde(nullptr))); }
   static void query(const Obj& o, const Cfg&, Rng&) { Sk res = o.get_result(); (void)res.get_n(); (void)o.get_serialized_size_bytes(IK::serde(nullptr)); }
+  static Arena* arena_of(const Obj& o) { return o.allocator_.arena; }   // private member: -fno-access-control
 #if !C19_VAROPT_UNION_COPY_ASSIGN
   // var_opt_union::operator=(const var_opt_union&) cannot be instantiated in the pinned tree (it swaps with a
   // const object, var_opt_union_impl.hpp:82) -- reported by compile_probes(); until that is repaired the
@@ -159,6 +162,8 @@ template<typename T> struct EbppsFam {
     (void)o.get_serialized_size_bytes(IK::serde(nullptr));
   }
   static const bool HAS_MERGE_REF = true, HAS_MERGE_MOVE = true, HAS_RESET = true, HAS_ROUNDTRIP = true;
+  static const bool SINGLE_INSTANCE = true;
+  static Arena* arena_of(const Obj& o) { return o.get_allocator().arena; }
   // x.merge(x): n and the cumulative weight double, k stays
   static const int SELF_MERGE = SM_DOUBLES;
   static SelfMergeFacts self_merge_facts(const Obj& o, const Cfg&) {
